@@ -66,6 +66,17 @@ def g_tie_stage(fmt, rng, per_q):
     p = F['p']
     out = []
     qlo, qhi = (-6, 25) if fmt == 'f64' else (-19, 12)
+    # deterministic part: for every q >= 0 of the window (and one beyond) the smallest odd multipliers
+    # with EVERY power of two that lifts the significand above 2^p (beyond the fast path) up to 2^64
+    for q in range(0, qhi + 1):
+        c_lo = (1 << p) // 5 ** q + 1
+        for c in (c_lo | 1, (c_lo | 1) + 2, ((1 << (p + 1)) // 5 ** q - 1) | 1):
+            if c <= 0:
+                continue
+            for j in range(max(0, p + 1 - c.bit_length()), 64 - c.bit_length() + 1):
+                w = c << j
+                if 0 < w <= M64:
+                    out.append((w, q))
     for q in range(qlo, qhi + 1):
         for _ in range(per_q):
             if q >= 0:
